@@ -236,13 +236,13 @@ def to_trace(sc, hist, hid):
 
 # --------------------------------------------------------------------------- the check
 
-def run_sched(binpath, scen_path, out_prefix, mode, budget, pb, spurious, sd, maxhist, shards):
+def run_sched(binpath, scen_path, out_prefix, mode, budget, pb, spurious, sd, maxhist, shards, marker="CHANSCHED_DONE"):
     def one(i):
         out = "%s.%d" % (out_prefix, i)
         cmd = [binpath, "-in", scen_path, "-out", out, "-mode", mode, "-budget", str(budget), "-pb", str(pb),
                "-spurious", str(spurious), "-seed", str(sd), "-maxhist", str(maxhist), "-shard", str(i), "-shards", str(shards)]
         r = subprocess.run(cmd, capture_output=True, text=True, timeout=3000)
-        if r.returncode != 0 or "CHANSCHED_DONE" not in r.stdout:
+        if r.returncode != 0 or marker not in r.stdout:
             raise C.Undecided("chansched failed (%s):\n%s" % (mode, (r.stdout + r.stderr)[-3000:]))
         return [json.loads(l) for l in open(out)]
     with ThreadPoolExecutor(max_workers=shards) as ex:
